@@ -168,6 +168,7 @@ def main():
             out['harness_errors'].append(f'{type(e).__name__}: {e}\n{traceback.format_exc()[-3000:]}')
     else:
         phases = [Phase.generate] + ([Phase.shrink] if spec.get('shrink', True) and fam.shrink else [])
+        shrink_budget = float(spec.get('shrink_budget_s', 45.0))
 
         @seed(int(spec['seed']))
         @settings(
@@ -185,6 +186,12 @@ def main():
             if state['last_fail'] is None and _real_monotonic() - t_start > budget:
                 out['skipped_budget'] += 1
                 return
+            if state['last_fail'] is not None:
+                # bounded shrinking: once the budget is used up every candidate other than the best known failing case
+                # "passes" without being run, so Hypothesis stops improving and replays the best known failure
+                state.setdefault('t_first_fail', _real_monotonic())
+                if _real_monotonic() - state['t_first_fail'] > shrink_budget and params != state['last_fail'][0]:
+                    return
             run_one(params)
 
         try:
